@@ -105,8 +105,8 @@ pub proof fn lemma_stamped_unread(ino: Inode, t: int, gran: int)
              'old(w).solo ==> (r.is_ok() ==> old(w).files.contains_key(pv(path)) && final(w).hard_faults == old(w).hard_faults '
              '&& final(w).only_inode_changed(*old(w), old(w).files[pv(path)], stamped(old(w).inode_at(pv(path)), final(w).now, old(w).gran)))'),
             ('C18 C05:error-leaves-filesystem-unchanged',
-             'old(w).solo ==> (r.is_err() ==> final(w).same_fs(*old(w)) && (absent_err(r.unwrap_err()) ==> !old(w).files.contains_key(pv(path))) '
-             '&& final(w).hard_faults == old(w).hard_faults + if absent_err(r.unwrap_err()) { 0nat } else { 1nat })'),
+             'old(w).solo ==> (r.is_err() ==> final(w).same_fs(*old(w)) && (absent_err(err_of(r)) ==> !old(w).files.contains_key(pv(path))) '
+             '&& final(w).hard_faults == old(w).hard_faults + if absent_err(err_of(r)) { 0nat } else { 1nat })'),
         ])
     f.insert_before('filetime :: set_file_times',
                     'proof { assert(mtime.seconds as int - ENFORCED_ATIME_MTIME_DELTA_SEC as int >= i64::MIN as int); '
@@ -128,8 +128,8 @@ pub proof fn lemma_stamped_unread(ino: Inode, t: int, gran: int)
              'old(w).solo ==> (r.is_ok() ==> old(w).files.contains_key(pv(path)) && final(w).hard_faults == old(w).hard_faults '
              '&& final(w).only_inode_changed(*old(w), old(w).files[pv(path)], Inode { writable: false, ..old(w).inode_at(pv(path)) }))'),
             ('C18 C05:error-leaves-filesystem-unchanged',
-             'old(w).solo ==> (r.is_err() ==> final(w).same_fs(*old(w)) && (absent_err(r.unwrap_err()) ==> !old(w).files.contains_key(pv(path))) '
-             '&& final(w).hard_faults == old(w).hard_faults + if absent_err(r.unwrap_err()) { 0nat } else { 1nat })'),
+             'old(w).solo ==> (r.is_err() ==> final(w).same_fs(*old(w)) && (absent_err(err_of(r)) ==> !old(w).files.contains_key(pv(path))) '
+             '&& final(w).hard_faults == old(w).hard_faults + if absent_err(err_of(r)) { 0nat } else { 1nat })'),
         ])
 
     ERR_UNCHANGED = ('C18 C05:error-leaves-filesystem-unchanged-and-is-a-real-fault',
@@ -252,6 +252,198 @@ pub proof fn lemma_stamped_unread(ino: Inode, t: int, gran: int)
     u.text('}\n')
 
 
+def weave_maintenance(u):
+    """collect_cached_files / apply_update / prune (C07 C17) on top of the planner's contract (U1)."""
+    u.text('pub mod raw_cache_maint {\n' + MOD_HEAD + 'use crate::benign_error::is_absent_file_error;\nuse crate::second_chance;\n'
+           'use crate::std::fs::DirEntry;\nuse crate::raw_cache::*;\n')
+    INV = ('C02 C18:valid-on-every-exit', 'final(w).inv()')
+    BOOK = ('', 'final(w).kept(*old(w))')
+
+    st = u.item('src/raw_cache.rs', ['struct CachedFile'])
+    # visibility only (spec functions of the public trait `Entry` mention the fields)
+    st.insert_before('struct CachedFile', 'pub ')
+    for fld in ('entry :', 'mtime :', 'accessed :'):
+        st.insert_before(fld, 'pub ')
+
+    # impl Entry for CachedFile: the spec twins are the fields themselves
+    ie = u.item('src/raw_cache.rs', ['impl Entry for CachedFile'])
+    ie.drop_inner_attrs('# [ inline ]')
+    rk = ie.sub(['fn rank'])
+    rk.insert_before_tok(rk.fn_kw(), 'open spec fn spec_rank(&self) -> FileTime { self.mtime }\n\n    ')
+    ac = ie.sub(['fn accessed'])
+    ac.insert_before_tok(ac.fn_kw(), 'open spec fn spec_accessed(&self) -> bool { self.accessed }\n\n    ')
+
+    ic = u.item('src/raw_cache.rs', ['impl CachedFile'])
+    nw = u.under_contract(ic.sub(['fn new']), ['C07', 'C09'])
+    nw.air = 'raw_cache_maint::CachedFile::new'
+    nw.contract(ensures=[
+        ('C07 C09:read-mark-is-atime-not-before-mtime',
+         'r.entry == entry && r.mtime.wf() && r.mtime.ns() == meta.view().mtime && r.accessed == (meta.view().atime >= meta.view().mtime)'),
+    ])
+    nw.insert_before('CachedFile { entry ,', 'proof { filetime::lemma_lex_is_ns(atime, mtime); }\n        ')
+
+    u.text('''
+/// What `collect_cached_files` must return for directory `dir` in world `w`: one record per listed
+/// regular file, carrying that file's current queue position (mtime) and read mark.
+pub open spec fn record_ok(c: CachedFile, w: World, dir: PathV) -> bool {
+    &&& c.entry.dir() == dir
+    &&& single_component(c.entry.name())
+    &&& w.files.contains_key(child(dir, c.entry.name()))
+    &&& c.mtime.wf()
+    &&& c.mtime.ns() == w.inode_at(child(dir, c.entry.name())).mtime
+    &&& c.accessed == w.accessed(child(dir, c.entry.name()))
+}
+
+/// Every record was taken from one of the first k items of the listing.
+pub open spec fn from_prefix(cache: Seq<CachedFile>, l0: Seq<Option<Seq<u8>>>, k: int) -> bool {
+    forall|i: int| 0 <= i < cache.len() ==> exists|j: int| 0 <= j < k && #[trigger] l0[j] == Some((#[trigger] cache[i]).entry.name())
+}
+
+/// Among the first k items of the listing (none of which failed), every regular file is recorded.
+pub open spec fn prefix_complete(cache: Seq<CachedFile>, l0: Seq<Option<Seq<u8>>>, k: int, w: World, dir: PathV) -> bool {
+    forall|j: int| 0 <= j < k ==> (#[trigger] l0[j]).is_some() && (w.files.contains_key(child(dir, l0[j].unwrap())) ==> exists|i: int|
+        0 <= i < cache.len() && (#[trigger] cache[i]).entry.name() == l0[j].unwrap())
+}
+
+pub proof fn lemma_skip_item(cache: Seq<CachedFile>, l0: Seq<Option<Seq<u8>>>, k: int, w: World, dir: PathV, complete: bool)
+    requires
+        0 < k <= l0.len(),
+        from_prefix(cache, l0, k - 1),
+        complete ==> prefix_complete(cache, l0, k - 1, w, dir),
+        complete ==> l0[k - 1].is_some() && !w.files.contains_key(child(dir, l0[k - 1].unwrap())),
+    ensures
+        from_prefix(cache, l0, k),
+        complete ==> prefix_complete(cache, l0, k, w, dir),
+{
+    assert forall|i: int| 0 <= i < cache.len() implies exists|j: int| 0 <= j < k && #[trigger] l0[j] == Some((#[trigger] cache[i]).entry.name()) by {
+        let j = choose|j: int| 0 <= j < k - 1 && #[trigger] l0[j] == Some(cache[i].entry.name());
+        assert(0 <= j < k && l0[j] == Some(cache[i].entry.name()));
+    }
+}
+
+pub proof fn lemma_push_record(c0: Seq<CachedFile>, c: CachedFile, l0: Seq<Option<Seq<u8>>>, k: int, w: World, dir: PathV, complete: bool)
+    requires
+        0 < k <= l0.len(),
+        listing_of(l0, w, dir),
+        records_ok(c0, w, dir),
+        record_ok(c, w, dir),
+        l0[k - 1] == Some(c.entry.name()),
+        from_prefix(c0, l0, k - 1),
+        complete ==> prefix_complete(c0, l0, k - 1, w, dir),
+    ensures
+        records_ok(c0.push(c), w, dir),
+        from_prefix(c0.push(c), l0, k),
+        complete ==> prefix_complete(c0.push(c), l0, k, w, dir),
+{
+    let c1 = c0.push(c);
+    assert forall|i: int, j: int| 0 <= i < j < c1.len() implies (#[trigger] c1[i]).entry.name() != (#[trigger] c1[j]).entry.name() by {
+        if j == c0.len() {
+            let jj = choose|jj: int| 0 <= jj < k - 1 && #[trigger] l0[jj] == Some(c0[i].entry.name());
+            assert(l0[jj].unwrap() != l0[k - 1].unwrap());
+        } else {
+            assert(c1[i] == c0[i] && c1[j] == c0[j]);
+        }
+    }
+    assert forall|i: int| 0 <= i < c1.len() implies record_ok(#[trigger] c1[i], w, dir) by {
+        if i < c0.len() {
+            assert(c1[i] == c0[i]);
+        }
+    }
+    assert forall|i: int| 0 <= i < c1.len() implies exists|j: int| 0 <= j < k && #[trigger] l0[j] == Some((#[trigger] c1[i]).entry.name()) by {
+        if i < c0.len() {
+            assert(c1[i] == c0[i]);
+            let j = choose|j: int| 0 <= j < k - 1 && #[trigger] l0[j] == Some(c0[i].entry.name());
+            assert(0 <= j < k && l0[j] == Some(c1[i].entry.name()));
+        } else {
+            assert(l0[k - 1] == Some(c1[i].entry.name()));
+        }
+    }
+    if complete {
+        assert forall|j: int| 0 <= j < k implies (#[trigger] l0[j]).is_some() && (w.files.contains_key(child(dir, l0[j].unwrap())) ==> exists|i: int|
+            0 <= i < c1.len() && (#[trigger] c1[i]).entry.name() == l0[j].unwrap()) by {
+            if j < k - 1 {
+                if w.files.contains_key(child(dir, l0[j].unwrap())) {
+                    let i = choose|i: int| 0 <= i < c0.len() && (#[trigger] c0[i]).entry.name() == l0[j].unwrap();
+                    assert(c1[i] == c0[i]);
+                }
+            } else {
+                assert(c1[c0.len() as int] == c);
+            }
+        }
+    }
+}
+
+/// Every regular file directly inside `dir` has a record.
+pub open spec fn all_files_recorded(cache: Seq<CachedFile>, w: World, dir: PathV) -> bool {
+    forall|n: Seq<u8>| #[trigger] w.files.contains_key(child(dir, n)) ==> exists|i: int| 0 <= i < cache.len() && (#[trigger] cache[i]).entry.name() == n
+}
+
+pub proof fn lemma_listing_complete(cache: Seq<CachedFile>, l0: Seq<Option<Seq<u8>>>, w: World, dir: PathV)
+    requires
+        listing_of(l0, w, dir),
+        prefix_complete(cache, l0, l0.len() as int, w, dir),
+    ensures
+        all_files_recorded(cache, w, dir),
+{
+    assert forall|n: Seq<u8>| #[trigger] w.files.contains_key(child(dir, n)) implies exists|i: int| 0 <= i < cache.len() && (#[trigger] cache[i]).entry.name() == n by {
+        assert(forall|i: int| 0 <= i < l0.len() ==> (#[trigger] l0[i]).is_some());
+        assert(l0.contains(Some(n)));
+        let j = choose|j: int| 0 <= j < l0.len() && l0[j] == Some(n);
+        assert(l0[j].is_some());
+    }
+}
+
+pub open spec fn records_ok(cache: Seq<CachedFile>, w: World, dir: PathV) -> bool {
+    &&& forall|i: int| 0 <= i < cache.len() ==> record_ok(#[trigger] cache[i], w, dir)
+    &&& forall|i: int, j: int| 0 <= i < j < cache.len() ==> (#[trigger] cache[i]).entry.name() != (#[trigger] cache[j]).entry.name()
+}
+''')
+
+    cf = u.under_contract(u.item('src/raw_cache.rs', ['fn collect_cached_files']), ['C07', 'C17', 'C05', 'C06', 'C18', 'C15', 'C02'])
+    cf.air = 'raw_cache_maint::collect_cached_files'
+    cf.add_param(W)
+    cf.add_arg('std :: fs :: read_dir', TW)
+    cf.add_arg('entry . metadata', TW)
+    cf.desugar_for(0, next_args=TW,
+                   after_init='let ghost l0 = kw_it.rem(); let ghost mut k: int = 0; let ghost dir = pv(cache_dir);',
+                   after_next='proof { k = k + 1; assert(l0.skip(k - 1)[0] == l0[k - 1]); assert(l0.skip(k - 1).drop_first() == l0.skip(k)); '
+                              'if l0[k - 1].is_some() { assert(single_component(l0[k - 1].unwrap())); } } ',
+                   after_loop='proof { if w.hard_faults == old(w).hard_faults { assert(kw_it.rem().len() == 0); assert(k == l0.len()); '
+                              'lemma_listing_complete(cache@, l0, *old(w), dir); } }')
+    cf.loop_contract(0, invariant=[
+        ('', 'w.inv() && w.kept(*old(w)) && w.same_fs(*old(w)) && w.published == old(w).published && w.now == old(w).now'),
+        ('', 'dir == pv(cache_dir) && kw_it.dir() == dir && listing_of(l0, *old(w), dir) && l0.len() < u64::MAX'),
+        ('C07:scan-position', '0 <= k <= l0.len() && kw_it.rem() == l0.skip(k) && cache@.len() <= count <= k'),
+        ('C07 C17:every-record-is-a-listed-regular-file-with-its-times', 'records_ok(cache@, *old(w), dir)'),
+        ('C07:records-come-from-the-scanned-prefix', 'from_prefix(cache@, l0, k)'),
+        ('C07:scanned-prefix-is-complete-when-nothing-failed',
+         'w.hard_faults == old(w).hard_faults ==> prefix_complete(cache@, l0, k, *old(w), dir)'),
+    ], ensures=[('', 'kw_it.rem().len() == 0')], decreases='kw_it.rem().len()')
+    # proof steps at the four ways an item is disposed of
+    cf.insert_before('continue', '{ proof { lemma_skip_item(cache@, l0, k, *old(w), dir, w.hard_faults == old(w).hard_faults); } ', nth=0)
+    cf.insert_after('continue', ' }', nth=0)
+    cf.insert_after('count -= 1 ;', '\n                proof { lemma_skip_item(cache@, l0, k, *old(w), dir, w.hard_faults == old(w).hard_faults); }')
+    cf.insert_before('cache . push', 'let ghost c0 = cache@;\n                ')
+    cf.insert_after('if let Ok ( entry ) = maybe_entry {', '\n            proof { assert(entry.name() == l0[k - 1].unwrap() && entry.dir() == dir); }')
+    cf.insert_after('cache . push ( CachedFile :: new ( entry , & meta ) ) ;',
+                    '\n                proof { lemma_push_record(c0, cache@.last(), l0, k, *old(w), dir, w.hard_faults == old(w).hard_faults); '
+                    'assert(cache@ == c0.push(cache@.last())); }')
+    # an unreadable item (`if let Ok(entry)` not taken) is a hard fault: completeness is no longer claimed
+    cf.contract(
+        requires=[('', 'old(w).inv()')],
+        ensures=[
+            INV, BOOK,
+            ('C15 C07:listing-changes-nothing', 'final(w).same_fs(*old(w)) && final(w).published == old(w).published && final(w).now == old(w).now'),
+            ('C07 C17:every-record-is-a-listed-regular-file-with-its-times',
+             'r.is_ok() ==> records_ok(r.unwrap().0@, *old(w), pv(cache_dir)) && r.unwrap().1 >= r.unwrap().0@.len()'),
+            ('C07:listing-is-complete-when-nothing-failed',
+             'r.is_ok() && final(w).hard_faults == old(w).hard_faults ==> all_files_recorded(r.unwrap().0@, *old(w), pv(cache_dir))'),
+            ('C05 C18:error-is-a-missing-directory-or-a-real-fault',
+             'r.is_err() ==> final(w).hard_faults > old(w).hard_faults || (absent_err(err_of(r)) && !old(w).dirs.contains(pv(cache_dir)))'),
+        ])
+    u.text('}\n')
+
+
 def weave_cache_dir_head(u):
     """validate_file_name, ensure_directory and the CacheDir trait's lookups."""
     u.text('pub mod cache_dir {\n' + MOD_HEAD + 'use crate::benign_error::is_absent_file_error;\nuse crate::raw_cache;\n'
@@ -264,10 +456,10 @@ def weave_cache_dir_head(u):
     f.replace('Error :: new', 'io_error_new', 'T2-rebind')
     f.contract(ensures=[
         ('C16:reserved-or-empty-names-are-rejected-with-invalid-input',
-         '!first_byte_ok(str_bytes(name)) ==> r.is_err() && err_kind(r.unwrap_err()) == ErrorKind::InvalidInput'),
+         '!first_byte_ok(str_bytes(name)) ==> r.is_err() && err_kind(err_of(r)) == ErrorKind::InvalidInput'),
         ('C16:accepted-names-are-single-components-outside-the-dot-namespace',
          'r.is_ok() ==> r.unwrap() == name && valid_key(str_bytes(name))'),
-        ('C16:only-invalid-input-is-ever-reported', 'r.is_err() ==> err_kind(r.unwrap_err()) == ErrorKind::InvalidInput'),
+        ('C16:only-invalid-input-is-ever-reported', 'r.is_err() ==> err_kind(err_of(r)) == ErrorKind::InvalidInput'),
         ('C05 C18 C16:only-invalid-names-are-rejected', 'r.is_err() ==> !first_byte_ok(str_bytes(name)) || str_bytes(name).contains(0x2fu8)'),
     ])
     f.body_start('proof { if first_byte_ok(str_bytes(name)) && !str_bytes(name).contains(0x2fu8) { lemma_valid_key(str_bytes(name)); } }')
@@ -322,7 +514,7 @@ def weave_cache_dir_head(u):
         ensures=[
             INV, BOOK,
             ('C16:invalid-names-fail-with-invalid-input-and-touch-nothing',
-             '!first_byte_ok(str_bytes(name)) ==> r.is_err() && err_kind(r.unwrap_err()) == ErrorKind::InvalidInput && *final(w) == *old(w)'),
+             '!first_byte_ok(str_bytes(name)) ==> r.is_err() && err_kind(err_of(r)) == ErrorKind::InvalidInput && *final(w) == *old(w)'),
             ('C06 C20:at-most-three-calls-one-open', 'final(w).steps <= old(w).steps + 3 && final(w).opens <= old(w).opens + 1 && final(w).published == old(w).published'),
             ('C15 C09:lookup-changes-nothing-but-the-access-time-of-the-entry-found',
              'final(w).files == old(w).files && final(w).dirs == old(w).dirs && forall|i: InodeId| old(w).inodes.contains_key(i) ==> '
@@ -353,7 +545,7 @@ def weave_cache_dir_head(u):
         ensures=[
             INV, BOOK,
             ('C16:invalid-names-fail-with-invalid-input-and-touch-nothing',
-             '!first_byte_ok(str_bytes(name)) ==> r.is_err() && err_kind(r.unwrap_err()) == ErrorKind::InvalidInput && *final(w) == *old(w)'),
+             '!first_byte_ok(str_bytes(name)) ==> r.is_err() && err_kind(err_of(r)) == ErrorKind::InvalidInput && *final(w) == *old(w)'),
             ('C06 C20:one-filesystem-call', 'final(w).steps <= old(w).steps + 1 && final(w).opens == old(w).opens && final(w).published == old(w).published'),
             ('C09 C15 C16:touch-marks-exactly-that-entry-without-reordering',
              'r == Ok::<bool, Error>(true) ==> old(w).files.contains_key(%s) && final(w).accessed(%s) '
@@ -374,5 +566,9 @@ def build(u):
     _unit('u2_trigger').weave_trigger(u, props=['C10'])
     weave_benign(u)
     weave_raw_leaves(u)
+    u.prelude('std_vec.rs')
+    u.prelude('clock.rs')
+    _unit('u1_planner').weave_planner(u, ['C07', 'C08'])
+    weave_maintenance(u)
     weave_cache_dir_head(u)
     return u
